@@ -1,6 +1,10 @@
 package simrt
 
-import "fmt"
+import (
+	"fmt"
+	"io"
+	"os"
+)
 
 // ExecEntry is a simulated executable.
 type ExecEntry struct {
@@ -26,6 +30,10 @@ type Process struct {
 	// standard error and never exits.
 	Helper  bool
 	User    interface{} // world-specific per-process log
+	// StdinView / StdoutView, when set, are what the process sees as os.Stdin / os.Stdout
+	// (the world's recorders around Stdin / Stdout).
+	StdinView  io.Reader
+	StdoutView io.Writer
 	carrier byte        // race-detector carrier: process exit happens before a successful wait
 }
 
@@ -116,3 +124,47 @@ func (s *Sim) WaitForever(p *Process) {
 func (p *Process) String() string { return fmt.Sprintf("%s[%d]", p.Name, p.Pid) }
 
 var pProcWaitBlocked = NewProbe("proc.wait-blocked")
+
+// ProcStdin is what os.Stdin stands for in seamed code: the standard input of the simulated
+// process the calling task belongs to (the real one outside a simulated process).
+//
+//go:norace
+func ProcStdin() io.Reader {
+	t := Cur()
+	if t == nil || t.Proc == nil {
+		return os.Stdin
+	}
+	pProcStdio.Hit()
+	switch p := t.Proc; {
+	case p.StdinView != nil:
+		return p.StdinView
+	case p.Stdin != nil:
+		return p.Stdin
+	}
+	return devNull{}
+}
+
+// ProcStdout is the counterpart of ProcStdin for os.Stdout.
+//
+//go:norace
+func ProcStdout() io.Writer {
+	t := Cur()
+	if t == nil || t.Proc == nil {
+		return os.Stdout
+	}
+	pProcStdio.Hit()
+	switch p := t.Proc; {
+	case p.StdoutView != nil:
+		return p.StdoutView
+	case p.Stdout != nil:
+		return p.Stdout
+	}
+	return devNull{}
+}
+
+type devNull struct{}
+
+func (devNull) Read([]byte) (int, error)    { return 0, io.EOF }
+func (devNull) Write(b []byte) (int, error) { return len(b), nil }
+
+var pProcStdio = NewProbe("proc.stdio-default-channel")
